@@ -312,3 +312,42 @@ func H_C10_scan() {
 	verif.Assert(!pan, "no-panic")
 	verif.Reach("end")
 }
+
+// H_C10_mutants: single-character mutations (replace by a structural
+// character, or delete) at every position of the listed queries: whatever
+// the parser still accepts is built and executed; never a panic or a hang.
+func H_C10_mutants() {
+	step := 4 - 3*verif.Tier() // quick tier: every fourth template
+	var pool []string
+	for i, q := range c10Queries2 {
+		if i%step == 0 {
+			pool = append(pool, q)
+		}
+	}
+	for i, q := range c10Queries {
+		if i%step == 1%step {
+			pool = append(pool, q)
+		}
+	}
+	qi := verif.Choose("query", len(pool))
+	q := pool[qi]
+	pos := verif.Choose("position", 96)
+	if pos >= len(q) {
+		verif.Assume(false)
+	}
+	repl := []string{"", "(", ")", "'", "`", ",", " ", "0", "*", "."}[verif.Choose("replacement", 10)]
+	mut := q[:pos] + repl + q[pos+1:]
+	a := float64(1)
+	doc := Map{
+		"t": []any{Map{"a": a, "s": "a%", "o": Map{"k": a}, "arr": []any{a}}, Map{"a": float64(2), "s": "x", "o": nil, "arr": []any{}}},
+		"u": []any{Map{"a": float64(2)}, Map{"a": Map{"b": a}}},
+		"a": Map{"b": a},
+	}
+	RegisterFunction("vfail", failingFunc)
+	RegisterFunction("vfailb", failingFunc)
+	RegisterFunction("vpanic", panickingFunc)
+	verif.Opt("recursion-is-violation", 1)
+	newExec(doc, mut)
+	verif.Drain()
+	verif.Reach("end")
+}
